@@ -8,6 +8,7 @@ import (
 	"syscall"
 
 	"verifharness/core"
+	"verifharness/menv"
 	"verifharness/props"
 )
 
@@ -44,6 +45,18 @@ func main() {
 	go func() { <-sig; core.Cleanup(); os.Exit(130) }()
 	r := core.Start(id, tier, seed, p.Level)
 	p.Run(r)
+	if n := menv.Loads.Load(); n > 0 {
+		// descriptor bookkeeping of this process (every child process of a split run writes its own line)
+		ents, _ := os.ReadDir("/proc/self/fd")
+		max := menv.MaxFDs.Load()
+		if int64(len(ents)) > max {
+			max = int64(len(ents))
+		}
+		fmt.Fprintf(os.Stderr, "FDSTAT %s %s only=%q mint_instances=%d max_open_descriptors=%d closes_by_number=%d\n", id, tier, os.Getenv("VERIF_ONLY"), n, max, menv.FDCloses.Load())
+		if !core.IsPart() {
+			r.Extra("process_descriptors", fmt.Sprintf("this process loaded %d mint instances; at most %d descriptors were open (limit %d); descriptors closed by number: %d times", n, max, 20000, menv.FDCloses.Load()))
+		}
+	}
 	code := r.Finish(p.MinNontrivial)
 	core.Cleanup()
 	os.Exit(code)
